@@ -16,7 +16,7 @@ pub const META: Meta = Meta {
     ],
     quick_cases: 100_338 + 150_000,
     thorough_cases: 4_429_535 + 2_000_000,
-    floor: 500,
+    floor: 14000,
 };
 
 pub fn profile() -> GenCfg {
